@@ -26,6 +26,7 @@ class SourceIndex(object):
     def __init__(self):
         self.files = {}      # filename -> (tree, {lineno: FunctionDef}, sha256)
         self.used = {}       # qualname -> (filename, lineno, sha of segment)
+        self._cache = {}     # code object -> (node, filename)
 
     def _load(self, filename):
         if filename not in self.files:
@@ -52,6 +53,9 @@ class SourceIndex(object):
         code = getattr(fn, "__code__", None)
         if code is None:
             return None
+        hit = self._cache.get(code)
+        if hit is not None:
+            return hit
         filename = code.co_filename
         if not filename or not os.path.exists(filename):
             return None
@@ -67,6 +71,7 @@ class SourceIndex(object):
         seg = ast.get_source_segment(text, node) or ""
         self.used[fn.__module__ + "." + fn.__qualname__] = (
             filename, node.lineno, hashlib.sha256(seg.encode()).hexdigest()[:16])
+        self._cache[code] = (node, filename)
         return node, filename
 
     def file_hashes(self):
